@@ -57,7 +57,7 @@ BRANCHES = [
     "base.run_batch_and_measure:reject_entry", "sim.run_and_measure:reject",
     "sim.get_wavefunction:native", "sim.get_wavefunction:nonnative",
 ]
-BUDGET = {"quick": (4, 24, 400), "thorough": (16, 200, 100000)}
+BUDGET = {"quick": (4, 24, 140), "thorough": (16, 200, 100000)}
 CASE_TIMEOUT = {"quick": 30, "thorough": 60}
 
 EMPTY_BATCH_NONPOSITIVE_IS_INVALID = True
@@ -730,28 +730,28 @@ def install(mon, reach):
     reach.watch(B.run_batch_and_measure, "base.run_batch_and_measure",
                 markers={"reject_length": r"Number of samples has to be an integer or a sequence",
                          "reject_entry": r"All numbers of samples have to be positive"})
-    reach.watch(B._run_batch_and_measure, "base._run_batch_and_measure")
+    reach.watch(getattr(B, "_run_batch_and_measure", None), "base._run_batch_and_measure")
     reach.watch(B.get_measurement_outcome_distribution, "base.get_measurement_outcome_distribution")
     reach.watch(W.run_and_measure, "sim.run_and_measure", markers={"reject": r"raise ValueError"})
-    reach.watch(W._run_and_measure, "sim._run_and_measure")
+    reach.watch(getattr(W, "_run_and_measure", None), "sim._run_and_measure")
     reach.watch(W.get_wavefunction, "sim.get_wavefunction",
                 markers={"native": r"_get_wavefunction_from_native_circuit\(", "nonnative": r"operation\.apply\(state\)"})
     reach.watch(W.get_exact_expectation_values, "sim.get_exact_expectation_values")
     reach.watch(W.get_measurement_outcome_distribution, "sim.get_measurement_outcome_distribution")
-    reach.watch(SS.SymbolicSimulator._get_wavefunction_from_native_circuit, "symbolic.native")
-    reach.watch(T._run_and_measure, "tracker._run_and_measure")
+    reach.watch(getattr(SS.SymbolicSimulator, "_get_wavefunction_from_native_circuit", None), "symbolic.native")
+    reach.watch(getattr(T, "_run_and_measure", None), "tracker._run_and_measure")
     reach.watch(T.run_batch_and_measure, "tracker.run_batch_and_measure")
     reach.watch(T.record_raw_measurement_data, "tracker.record_raw_measurement_data")
     reach.watch(T.get_measurement_outcome_distribution, "tracker.get_measurement_outcome_distribution")
     reach.watch(T.save_raw_data, "tracker.save_raw_data")
 
     mon.hook_method(B, "run_and_measure", pre=_pre, post=_post_single, name="run_and_measure")
-    mon.hook_method(W, "run_and_measure", pre=_pre, post=_post_single, name="run_and_measure")
+    mon.hook_method(W, "run_and_measure", pre=_pre, post=_post_single, name="run_and_measure", overrides=True)
     mon.hook_method(B, "run_batch_and_measure", pre=_pre, post=_post_batch, name="run_batch_and_measure")
     mon.hook_method(B, "get_measurement_outcome_distribution", pre=_pre, post=_post_dist, name="distribution")
-    mon.hook_method(W, "get_measurement_outcome_distribution", pre=_pre, post=_post_dist, name="distribution")
-    mon.hook_method(W, "get_wavefunction", pre=_pre, post=_post_wf, name="get_wavefunction")
-    mon.hook_method(W, "get_exact_expectation_values", pre=_pre, post=_post_exact, name="exact_expectation")
+    mon.hook_method(W, "get_measurement_outcome_distribution", pre=_pre, post=_post_dist, name="distribution", overrides=True)
+    mon.hook_method(W, "get_wavefunction", pre=_pre, post=_post_wf, name="get_wavefunction", overrides=True)
+    mon.hook_method(W, "get_exact_expectation_values", pre=_pre, post=_post_exact, name="exact_expectation", overrides=True)
     mon.hook_method(SS.SymbolicSimulator, "_get_wavefunction_from_native_circuit", pre=_pre_native, name="symbolic.native")
     mon.hook_method(T, "run_batch_and_measure", pre=_pre, post=_post_tbatch, name="tracker.batch")
     mon.hook_method(T, "get_measurement_outcome_distribution", pre=_pre, post=_post_tdist, name="tracker.distribution")
